@@ -30,6 +30,8 @@ GRAPH = {"DependencyGraph.remove_all_for_agent": {"raises": (), "returns": "none
 ALIAS = {"alias_values": {"ctx.acquired_resources": "self.resources"}}
 
 # ------------------------------------------------------------------ the lock itself
+construct("ResourceLock", "operon_ai.coordination.types", {"resource_id": "r"})
+
 contract(FT + "::ResourceLock.try_acquire", "C14", callbacks=GRAPH, raises=[],
          ensures={
              "acquired-or-reentrant-or-preempted-means-owned": "implies(result != LockResult.BLOCKED, self.owner == owner and self.hold_count >= 1)",
